@@ -1,5 +1,6 @@
 import TaskModel.Vars.Model
 import TaskModel.Vars.Dotenv
+import TaskModel.Vars.Cli
 import Driver.Util
 /-!
 `vars.resolve <rootDir> <dirAfter> <ntpl> part* <nbase> (name val)* { <ndefs> (name kind <nparts> part*)* }×6 <nq> name*`
@@ -134,6 +135,25 @@ def doDotenvChain : P String := do
   let st := dotenvChain [] es
   pure (" ".intercalate ((dotenvEnv [] es).map (fun e => s!"{e.1}={showStr (get st e.1)}/{showStr e.2}")))
 
+/-- `vars.cli <nbase> (name val)* <genv block> <declared block> <nassign> (name <nparts> part*)* <cliargs> <force> <silent> <verbose> <offline>
+<taskvars block> <nq> name*` — a run started from the command line: the global layer is `taskfileVars declared (cliLayer …)` -/
+def doCli : P String := do
+  let nb ← nat; let base ← many nb binding
+  let block : P (List (Name × VarDef)) := do let n ← nat; many n vdef
+  let genv ← block
+  let declared ← block
+  let na ← nat; let assigns ← many na (do let k ← nat; let ps ← parts; pure (k, ps))
+  let cliArgs ← str
+  let force ← bool; let silent ← bool; let verbose ← bool; let offline ← bool
+  let tv ← block
+  let nq ← nat; let qs ← many nq nat
+  let gl := taskfileVars declared (cliLayer assigns cliArgs { force := force, silent := silent, verbose := verbose, offline := offline })
+  let defs : Site → List (Name × VarDef) := fun s =>
+    match s with
+    | .taskfileEnv => genv | .taskfileVars => gl | .taskVars => tv | _ => []
+  let st := getVariables ⟨oracle, base.reverse⟩ ⟨[], [], 3⟩ base.reverse (layersOf defs) []
+  pure (" ".intercalate (qs.map (fun q => showStr (get st.env q))))
+
 def handle (op : String) (args : List String) : Option String :=
   let run (p : P String) := match p.run args with | some (r, []) => some r | _ => none
   match op with
@@ -146,6 +166,9 @@ def handle (op : String) (args : List String) : Option String :=
   -- execution consistency: what each call printed (command and deferred command) must be the values
   -- resolved for that call, which the `vars.resolve` lines of the same case tie to the model
   | "vars.run" => some (" ".intercalate args)
+  | "vars.cli" => run doCli
+  -- monitor of "special variables are available": `vars.climon <name> <value the rule demands>`
+  | "vars.climon" => match args with | [_, want] => some want | _ => none
   | _ => none
 
 end Driver.Vars
